@@ -90,6 +90,44 @@ type Opts struct {
 	Untrusted bool // the trust store holds another CSCA of the same country (same name), not the issuer
 
 	CAMGrindPub int // as CAOpts.GrindPub, for the static PACE-CAM key in CardSecurity (default off)
+
+	// SODOrder (default SODAscending) is the order of the DataGroupHash entries in the LDS
+	// security object: a SEQUENCE OF has no ordering rule. The permutation of SODShuffled is
+	// drawn from SODOrderSeed alone (the personalisation PRNG is not consumed, so the files are
+	// the same whatever the order). EF.COM keeps listing the tags in ascending order.
+	SODOrder     SODOrder
+	SODOrderSeed uint64
+}
+
+type SODOrder int
+
+const (
+	SODAscending SODOrder = iota
+	SODDescending
+	SODShuffled // never ascending when there are at least two entries
+)
+
+func (s SODOrder) String() string { return [...]string{"ascending", "descending", "shuffled"}[s] }
+
+// sodOrder returns the data group numbers (given in ascending order) in the order in which
+// the security object lists them; nil stands for the issuer's default (ascending).
+func sodOrder(o Opts, asc []int) []int {
+	out := append([]int{}, asc...)
+	switch o.SODOrder {
+	case SODDescending:
+		for i, j := 0, len(out)-1; i < j; i, j = i+1, j-1 {
+			out[i], out[j] = out[j], out[i]
+		}
+	case SODShuffled:
+		pr := mrand.New(mrand.NewPCG(o.SODOrderSeed, 0x50D0DE4))
+		pr.Shuffle(len(out), func(i, j int) { out[i], out[j] = out[j], out[i] })
+		if len(out) > 1 && sort.IntsAreSorted(out) {
+			out = append(out[1:], out[0])
+		}
+	default:
+		return nil
+	}
+	return out
 }
 
 var Countries = [][2]string{{"NLD", "NL"}, {"FRA", "FR"}, {"USA", "US"}, {"GBR", "GB"}, {"NZL", "NZ"}, {"SGP", "SG"}, {"CHE", "CH"}, {"AUS", "AU"}, {"MYS", "MY"}}
@@ -405,6 +443,9 @@ func Build(r *mrand.Rand, o Opts) *Perso {
 	sort.Ints(nums)
 	p.SODDGs = nums
 	lds := issuer.LDSSpec{Hash: o.Digest, DGHashes: hashes, HashNull: r.IntN(2) == 0}
+	if ord := sodOrder(o, nums); ord != nil {
+		lds.Order, p.SODDGs = ord, ord
+	}
 	if o.LDSv1 {
 		lds.Version, lds.LDSVer, lds.UniVer = 1, "0108", "040000"
 	}
